@@ -27,6 +27,7 @@ func init() {
 			{"C07/ntlm-session", "the NTLM exchange of a request is keyed by that connection's address, so tunnels setting up from one host do not share a server session (C05's NTLM gate rule)", func(c *Ctx) { c05NtlmGateAs(c, "C07/ntlm-session") }},
 			{"C07/context-only", "security callbacks use only the tunnel of their own context; the packet loop's context carries its own tunnel", c07ContextOnly},
 			{"C07/shared-slices", "request-serving code never writes into a slice shared between requests (element store or append(s[:0], ...) on a package-variable / long-lived-field slice)", func(c *Ctx) { sharedSliceWrites(c, "C07/shared-slices") }},
+			{"C07/buffer-ownership", "a packet is assembled and handed on in storage of the call or the connection: no package-level buffer, no pooled buffer that the returned payload still aliases", func(c *Ctx) { packetBuffersPrivate(c, "C07/buffer-ownership") }},
 		},
 	})
 }
